@@ -28,9 +28,20 @@ class KindA: ...
 class KindB: ...
 
 
-def universe(registry):
+def nsalt(n):
+    """a history's universe is `n` or `[n, salt]`; the salt only renames the resources (other hashes, hence
+    other set iteration orders) and is invisible to the model"""
+    return (n[0], n[1]) if isinstance(n, (list, tuple)) else (n, 0)
+
+
+def universe(registry, n=6, salt=0):
     R = registry.Resource
-    return [R(KindA, "a"), R(KindA, "b"), R(KindB, "a"), R(KindB, "c", "ns"), R(KindA, "a", "ns"), R(KindB, "b")]
+    base = [R(KindA, "a"), R(KindA, "b"), R(KindB, "a"), R(KindB, "c", "ns"), R(KindA, "a", "ns"), R(KindB, "b")]
+    if salt == 0 and n <= 6:
+        return base[:n]
+    kinds = [KindA, KindB]
+    return [R(kinds[(i + salt) % 2], f"r{salt}-{i * 7919 % 1009}-{i}", "ns" if (i + salt) % 5 == 0 else None)
+            for i in range(n)]
 
 
 class RecQ(asyncio.LifoQueue):
@@ -80,8 +91,9 @@ class Impl:
 
     def __init__(self, registry, n: int):
         self.reg = registry
+        n, salt = nsalt(n)
         self.n = n
-        self.res = universe(registry)[:n]
+        self.res = universe(registry, n, salt)
         self.idx = {r: i for i, r in enumerate(self.res)}
         self.queues: list[RecQ] = []
         self.held = [set(), set()]   # set objects the "caller" keeps and re-uses / mutates
@@ -107,9 +119,17 @@ class Impl:
 
     def state(self):
         g = self.reg
+        # read the two views WITHOUT creating entries: the public getters index a defaultdict, which would
+        # insert an empty set for every resource looked at — and `_check_for_cycles` tells "has no entry"
+        # from "has an empty entry" (its `continue` branch), so observing must not turn one into the other
+        so = getattr(g, "_SUBSCRIBER_RESOURCES", None)
+        sr = getattr(g, "_RESOURCE_SUBSCRIBERS", None)
+
+        def peek(d, getter, r):
+            return d.get(r, ()) if isinstance(d, dict) else getter(r)
         return {
-            "subs": [sorted(self.idx.get(x, -1) for x in g.get_subscriptions(r)) for r in self.res],
-            "subscribers": [sorted(self.idx.get(x, -1) for x in g.get_subscribers(r)) for r in self.res],
+            "subs": [sorted(self.idx.get(x, -1) for x in peek(so, g.get_subscriptions, r)) for r in self.res],
+            "subscribers": [sorted(self.idx.get(x, -1) for x in peek(sr, g.get_subscribers, r)) for r in self.res],
             "queues": [None if self.registered(i) is None else self.snap_q(self.registered(i)) for i in range(self.n)],
         }
 
@@ -247,6 +267,7 @@ def oracle_history(registry, n, ops):
 
 def _oracle_history(registry, n, ops, trace):
     im = Impl(registry, n)
+    n = im.n
     empty = {"subs": [[] for _ in range(n)], "subscribers": [[] for _ in range(n)], "queues": [None] * n}
     before = empty
     try:
@@ -276,6 +297,31 @@ def _oracle_history(registry, n, ops, trace):
                     return i, "a subscription that closes a cycle was not refused"
             if out["k"] in ("cycle", "keyError") and after != before:
                 return i, f"a refused {k} ({out['k']}) changed the registry"
+            if k == "kill":
+                r = op["r"]
+                qb, qa = before["queues"][r], after["queues"][r]
+                if out["k"] != "ok":
+                    return i, (f"kill_resource of {'a registered' if qb is not None else 'an unregistered'} resource "
+                               f"raised ({out['k']}); killing never raises and is a no-op for an unregistered resource")
+                if qb is None:
+                    if after != before:
+                        return i, "kill_resource of an unregistered resource changed the registry"
+                else:
+                    if qa is None:
+                        return i, "kill_resource removed the queue (it must stay registered until deregister)"
+                    if not qa["shut"]:
+                        return i, f"after kill_resource the queue is not shut down (it keeps accepting events): {qa}"
+                    if not qb["shut"]:
+                        full = qb["cap"] > 0 and len(qb["items"]) >= qb["cap"]
+                        want_items = qb["items"] if full else ["K"] + qb["items"]
+                        if qa["items"] != want_items:
+                            return i, f"after kill_resource the queue does not hold the Kill item on top: {qa['items']}"
+                    elif qa != qb:
+                        return i, "kill_resource of an already killed resource changed its queue"
+                    rest_b = dict(before, queues=[q for x, q in enumerate(before["queues"]) if x != r])
+                    rest_a = dict(after, queues=[q for x, q in enumerate(after["queues"]) if x != r])
+                    if rest_a != rest_b:
+                        return i, "kill_resource changed something besides the killed resource's queue"
             if k == "mutate" and after != before:
                 return i, "the registry changed when a caller mutated a set it had passed to subscribe_only_to"
             # deliveries
@@ -416,6 +462,49 @@ def gen_history(r):
     return n, ops[:80]
 
 
+def gen_wide_history(r, salt):
+    """a wide universe: the level the cycle check expands holds many leaves (resources that never
+    subscribed to anything, i.e. without an entry in `_SUBSCRIBER_RESOURCES`) next to the one node whose
+    subscriptions lead back to the subscriber — whatever order the set is walked in, the cycle must be found"""
+    n = r.randint(10, 36)
+    ids = list(range(n))
+    r.shuffle(ids)
+    x = ids[0]
+    chain = ids[1:1 + r.choice([1, 1, 2, 3])]          # chain[0] -> … -> chain[-1] -> x  ("watches")
+    rest = ids[1 + len(chain):]
+    ops = []
+    t = 0
+    for a in r.sample(ids, r.randint(0, 4)):
+        ops.append({"op": "register", "r": a, "cap": 0})
+    nodes = chain + [x]
+    for a, b in zip(nodes, nodes[1:]):
+        extra = r.sample(rest, r.randint(0, min(6, len(rest))))   # inner levels hold leaves too
+        if extra or r.random() < 0.5:
+            rs = extra + [b]
+            r.shuffle(rs)
+            ops.append({"op": "only", "s": a, "rs": rs, "via": r.choice(["list", "tuple", "set"])})
+        else:
+            ops.append({"op": "subscribe", "s": a, "r": b})
+    leaves = r.sample(rest, r.randint(min(3, len(rest)), len(rest)))
+    y = r.random()
+    if y < 0.7:          # closes the cycle through a level full of leaves: must be refused
+        rs = leaves + [chain[0]]
+        r.shuffle(rs)
+        ops.append({"op": "only", "s": x, "rs": rs, "via": r.choice(["list", "tuple", "set", "frozenset"])})
+    elif y < 0.85:       # leaves first (accepted), then the single closing edge
+        ops.append({"op": "only", "s": x, "rs": leaves, "via": "list"})
+        ops.append({"op": "subscribe", "s": x, "r": chain[0]})
+    else:                # no cycle: accepted
+        ops.append({"op": "only", "s": x, "rs": leaves, "via": "list"})
+    for _ in range(r.randint(0, 4)):
+        t += 1
+        a, b = r.choice(ids), r.choice(ids)
+        ops.append(r.choice([{"op": "subscribe", "s": a, "r": b}, {"op": "notify", "r": a, "t": t},
+                             {"op": "kill", "r": a}, {"op": "unsubscribe", "s": a, "r": b},
+                             {"op": "deregister", "r": a, "t": t}]))
+    return [n, salt], ops
+
+
 def alphabet3():
     """the op alphabet of the exhaustive box over resources {0,1,2}"""
     A = []
@@ -475,7 +564,7 @@ STOP_AFTER = 40      # failing histories after which a run stops exploring (the 
 
 def explore(ck, registry, drv, cases, what, keep_samples=True):
     """correspondence + property oracle on a batch of (n, ops); False = stop exploring"""
-    reqs = [{"n": n, "ops": ops} for n, ops in cases]
+    reqs = [{"n": nsalt(n)[0], "ops": ops} for n, ops in cases]
     try:
         answers = drv.ask(reqs)
     except Infra as e:
@@ -570,6 +659,14 @@ def run(tier: str) -> int:
             batch = [gen_history(r) for _ in range(min(2000, total - done))]
             go = explore(ck, registry, drv, batch, "random")
             done += len(batch)
+        # wide universes: levels full of leaves, resource names (hence hashes and set orders) vary per history
+        rw = rng("c17-wide")
+        total_w = 800 if tier == "quick" else 40000
+        done = 0
+        while go and done < total_w:
+            batch = [gen_wide_history(rw, 1 + done + j) for j in range(min(1000, total_w - done))]
+            go = explore(ck, registry, drv, batch, "wide", keep_samples=False)
+            done += len(batch)
         # exhaustive box
         A = alphabet3()
         depth = 3 if tier == "quick" else 4
@@ -586,7 +683,9 @@ def run(tier: str) -> int:
         signal.setitimer(signal.ITIMER_REAL, 0)
 
     return ck.finish(
-        rule="random operation sequences (1-80 ops, 4-6 resources of two kinds/namespaces, register with "
+        rule="wide-universe sequences (10-36 freshly named resources per history, a subscription chain whose "
+             "levels hold up to 30 leaves without any subscription entry, closed into a cycle through such a "
+             "level) and random operation sequences (1-80 ops, 4-6 resources of two kinds/namespaces, register with "
              "unbounded and bounded queues, subscribe biased towards closing cycles, subscribe_only_to with "
              "duplicates, unsubscribe of present and absent edges, notify, kill-then-notify, "
              "deregister-then-subscribe, verbatim repetitions) plus every sequence of exactly "
@@ -608,6 +707,14 @@ def replay(path: str) -> int:
     try:
         for case in cases:
             bad, got = oracle_history(registry, case["n"], case["ops"])
+            if bad is None:
+                # some failures depend on the iteration order of Python sets (string hashes change from
+                # process to process): the same history under other resource names is the same case
+                for salt in range(1, 41):
+                    bad, got = oracle_history(registry, [nsalt(case["n"])[0], salt], case["ops"])
+                    if bad is not None:
+                        print(f"replay: fails with the resources renamed (salt {salt})")
+                        break
             outs = [g["out"] for g in got]
             print("replay:", json.dumps(case), "->", json.dumps(outs), "::", bad)
             rc = rc or (1 if bad else 0)
